@@ -179,6 +179,8 @@ func checkC08(c CtlCase, o *Obs) error {
 		time.Sleep(1100 * time.Millisecond)
 		o.Class("idle_for_a_second_before_the_first_read")
 	}
+	rereadSameErr = true
+	defer func() { rereadSameErr = false }()
 	logFrom, readStart := len(tr.Log), time.Now()
 	rt := RunReadP(conn, c.Reads, len(model.Msgs)+1, lens, 4, prog)
 	afterReadError = nil
